@@ -198,6 +198,13 @@ func ruleS17_1(c *Ctx, id string) {
 							if resolveCaptured(a) == v {
 								usesInum = true
 							}
+							// the operation sits in a function that is handed the number down (a helper, or a named
+							// body called by a locking helper): the parameter stands for what the handler passed
+							for _, s2 := range hScopes {
+								if s2.Fn == f && resolveCaptured(s2.S.resolve(stripConv(a))) == v {
+									usesInum = true
+								}
+							}
 						}
 					}
 					if hasInumParam {
